@@ -36,7 +36,7 @@ pub fn programs(tier: Tier) -> ProgramSet {
         Tier::Thorough => 5usize,
     };
     // declaration order is deliberately NOT alphabetical (neither by identifier nor by generated field name)
-    let ident_sets: Vec<Vec<&str>> = vec![vec!["Mm", "Kk", "I_j", "G2h", "DEf"], vec!["V1", "HTTPServer", "V_1", "A1", "Utf8To16"]];
+    let ident_sets: Vec<Vec<&str>> = vec![vec!["Mm", "Kk", "I_j", "G2h", "DEf"], vec!["V1", "HTTPServer", "V_1", "A1", "Utf8To16"], vec!["Café2", "Ünï3x", "Straße", "r#type", "Z9"]];
     let mut out = Vec::new();
     let mut add = |label: String, spec: EnumSpec, out: &mut Vec<Program>| {
         let source = render(&spec);
